@@ -111,6 +111,10 @@ def sqrt_checked(facts, x):
 
 
 def run(ctx):
+    # no hidden state: what this property is about keeps nothing at module level between calls (memo tables keyed by less than
+    # the value depends on, caches of the outside world, counters) -- a verdict on one call must hold for every later call
+    from .. import rules as _rules
+    _rules.check_hidden_state(ctx, 'C12.5', ['bits.bips.bip340.sign', 'bits.bips.bip340.verify', 'bits.bips.bip340.pubkey'])
     R = ctx.R
     fs = ctx.fn("bits.bips.bip340.sign")
     fv = ctx.fn("bits.bips.bip340.verify")
